@@ -2,7 +2,7 @@
 From Coq Require Import Lia Sorting.Permutation String.
 From RM Require Import C13.Model C13.Proofs C13.Linux C13.ProofsLinux C13.ProofsLimits C13.Sites.
 From RM Require C12.Model C12.Proofs C13.Sched C13.ProofsSched.
-From RM Require Import C13.Adaptive C13.ProofsAdaptive C13.Budget C13.ProofsBudget C13.Cfi C13.ProofsCfi.
+From RM Require Import C13.Adaptive C13.ProofsAdaptive C13.Budget C13.ProofsBudget C13.Cfi C13.ProofsCfi C13.Process C13.ProofsProcess.
 Open Scope string_scope.
 Open Scope list_scope.
 Open Scope Z_scope.
@@ -311,6 +311,47 @@ Proof.
 Qed.
 Print Assumptions c13_frame_budget_refuted.
 
+(* ---- round 5: the per-thread part of into_process_state as one system: adaptive walks over the shared Symbolizer, the
+   post-walk step of each future run in the poll in which its walk finishes, results read by index.  The schedule decides
+   how the lookups interleave AND in which order the walks finish; when the post-walk steps commute, neither shows *)
+Theorem c13_process_schedule_independent :
+  forall (F S : Type) (post : S -> nat -> F -> S * F) (c : C12.Model.config) (d : F) (atasks : list (@atask F)) (s0 : S)
+         (s1 s2 : list C12.Model.task),
+  posts_commute post ->
+  pall_finished (length atasks) (process post c d atasks s0 s1) = true ->
+  pall_finished (length atasks) (process post c d atasks s0 s2) = true ->
+  pthreads (length atasks) (process post c d atasks s0 s1) = pthreads (length atasks) (process post c d atasks s0 s2) /\
+  pshared (process post c d atasks s0 s1) = pshared (process post c d atasks s0 s2).
+Proof. intros F S post c d atasks s0 s1 s2. exact (process_independent post c d atasks s0 s1 s2). Qed.
+Print Assumptions c13_process_schedule_independent.
+
+(* today's code (read-only post-walk statements): thread i of the report = future i's own post-walk step applied to the
+   value at the end of the path that the supplier's answers select in its tree — for every schedule that finishes *)
+Theorem c13_process_determined :
+  forall (F S : Type) (post : S -> nat -> F -> S * F) (c : C12.Model.config) (d : F) (atasks : list (@atask F)) (s0 : S)
+         (sched : list C12.Model.task),
+  post_readonly post ->
+  pall_finished (length atasks) (process post c d atasks s0 sched) = true ->
+  pthreads (length atasks) (process post c d atasks s0 sched) =
+    map (fun i => Some (snd (post s0 i (aeval (C12.Model.outc c) (nth i atasks (ADone d)))))) (seq 0 (length atasks)).
+Proof. intros F S post c d atasks s0 sched. exact (process_readonly post c d atasks s0 sched). Qed.
+Print Assumptions c13_process_determined.
+
+(* ... and with the first-come-first-served budget the same system gives two thread lists for two schedules *)
+Theorem c13_process_budget_refuted :
+  exists (c : C12.Model.config) (atasks : list (@atask (list nat))) (s1 s2 : list C12.Model.task),
+  pall_finished 2 (process budget_post c [] atasks 3%nat s1) = true /\
+  pall_finished 2 (process budget_post c [] atasks 3%nat s2) = true /\
+  pthreads 2 (process budget_post c [] atasks 3%nat s1) <> pthreads 2 (process budget_post c [] atasks 3%nat s2).
+Proof.
+  exists {| C12.Model.tasks := []; C12.Model.susp := fun k => match k with O => 2%nat | _ => 0%nat end;
+            C12.Model.outc := fun _ => C12.Model.OOk; C12.Model.leaf := fun k => k |},
+         [AAsk 0%nat (fun _ => ADone [7; 7]%nat); AAsk 1%nat (fun _ => ADone [8; 8]%nat)],
+         [0; 0; 0; 1]%nat, [0; 1; 0; 0]%nat.
+  split; [vm_compute; reflexivity|]. split; [vm_compute; reflexivity|]. vm_compute. discriminate.
+Qed.
+Print Assumptions c13_process_budget_refuted.
+
 (* ---- round 5: the order in which walk_with_stack_cfi applies the general-register rules *)
 (* whatever the walker does with a (name, rule) pair — aliases (x29/fp), failed rules that clear a register — the caller's
    registers are the same for every iteration order of the rule HashMap, because the rules are sorted by name and the
@@ -491,3 +532,19 @@ Example c13_nonvacuous_cfi_arm64 :
   a64_walk (@rev _) written callee (b "x19") = None /\ a64_walk (@rev _) written callee (b "x20") = Some 77 /\
   a64_walk (@rev _) written callee (b "lr") = None /\ a64_memoize (b "x30") = Some (b "lr") /\ a64_memoize (b "x31") = None.
 Proof. vm_compute. repeat split. Qed.
+
+(* the whole per-thread system on two adaptive walks whose modules answer after 2 and 0 suspensions, with the reporter's
+   counter as post-walk step: thread 1 finishes first under s2, the thread list and the counter do not care *)
+Example c13_nonvacuous_process :
+  let c := {| C12.Model.tasks := []; C12.Model.susp := fun k => match k with O => 2%nat | _ => 0%nat end;
+              C12.Model.outc := fun _ => C12.Model.OOk; C12.Model.leaf := fun k => k |} in
+  let atasks := [AAsk 0%nat (fun _ => ADone [7; 7]%nat); AAsk 1%nat (fun _ => ADone [8; 8]%nat)] in
+  let s1 := [0; 0; 0; 1]%nat in let s2 := [0; 1; 0; 0]%nat in
+  posts_commute (@counter_post (list nat)) /\
+  pall_finished 2 (process counter_post c [] atasks 0%nat s1) = true /\
+  pall_finished 2 (process counter_post c [] atasks 0%nat s2) = true /\
+  pthreads 2 (process counter_post c [] atasks 0%nat s2) = [Some [7; 7]; Some [8; 8]]%nat /\
+  pshared (process counter_post c [] atasks 0%nat s2) = 2%nat /\
+  pthreads 2 (process budget_post c [] atasks 3%nat s1) = [Some [7; 7]; Some [8]]%nat /\
+  pthreads 2 (process budget_post c [] atasks 3%nat s2) = [Some [7]; Some [8; 8]]%nat.
+Proof. cbv zeta. split; [exact counter_commutes|]. repeat split; vm_compute; reflexivity. Qed.
